@@ -39,7 +39,8 @@ ENCODING = [
     [1, 32, 64],
 ]
 
-VALID = rf"^{re.escape(MAGIC)}[{re.escape(''.join(NUM_ALPHA))}]{{4,}}$"
+# \Z rather than $: a trailing newline is not part of a valid crypt string
+VALID = rf"^{re.escape(MAGIC)}[{re.escape(''.join(NUM_ALPHA))}]{{4,}}\Z"
 
 
 def juniper_decrypt(crypt: str) -> str:
